@@ -16,7 +16,7 @@ from props import c04, c05
 PID = "C13"
 GUARD = ("ASCII letters in header names (Python lower() is Unicode-aware, the model folds ASCII only); language names and cell values are "
          "case-sensitive and never rewritten; one delimiter style per sheet; added sheets are underscore-prefixed or far from every supported name")
-MODELLED = ("to_snake_case, process_header (coq/Model/Headers.v), the begin/end row stack with blank rows (Model/Rows.v), process_row/merge_dicts "
+MODELLED = ("to_snake_case, process_header (coq/Model/Headers.v), clean_text_values for one cell (Model/CellText.v), the begin/end row stack with blank rows (Model/Rows.v), process_row/merge_dicts "
             "for a column family (Model/RowMerge.v) and the alias tables regenerated from /repo (Gen/Headers.v, Gen/Types.v). Whether the whole "
             "pipeline commutes with each spelling/layout rewrite is decided on the implementation by the metamorphic oracle")
 ASSUMPTIONS = ["openpyxl round trip of the generated workbooks (cells are written and read as text)"]
@@ -74,8 +74,32 @@ class OtherHeaderOp(Op):
         return cases
 
 
+class CellTextOp(Op):
+    """clean_text_values on one cell against Model/CellText.v (with and without white-space stripping)"""
+    name = "B.clean_cell"
+    imports = ["PX.Model.CellText"]
+    fn = "fun p => clean_cell (fst p) (snd p)"
+    in_ty = "(bool * list N)"
+    n_quick, n_thorough = 300, 3000
+
+    def generate(self, rng, n):
+        from pyxform.xls2json import clean_text_values
+        from common import cbool
+        atoms = ["a", "b c", " ", "  ", "   ", "\t", "\n", "\u00a0", "‘", "’", "“", "”", "'", '"', "x", "é", "it’s", "“q”", " \t ", "1", "."]
+        cases = []
+        for _ in range(n):
+            v = "".join(rng.choice(atoms) for _ in range(rng.randint(1, 7)))
+            if "${" in v:
+                continue
+            sw = rng.random() < 0.6
+            out = clean_text_values(sheet_name="survey", data=[{"label": v}], strip_whitespace=sw)[0]["label"]
+            cases.append({"coq": f"({cbool(sw)}, {cstr(v)})", "expected": out, "desc": {"cell": v, "strip_whitespace": sw}, "class": "strip" if sw else "keep",
+                          "nontrivial": out != v})
+        return cases
+
+
 def ops(tier):
-    return [SnakeOp(), c05.HeaderOp(), OtherHeaderOp(), c04.RowsOp()]
+    return [SnakeOp(), c05.HeaderOp(), OtherHeaderOp(), c04.RowsOp(), CellTextOp()]
 
 
 # ---- metamorphic oracle ------------------------------------------------------------------------------------------
